@@ -456,17 +456,16 @@ SerOK(T, x, d) ==
     [] T.k = "pattern"  -> x.k = "pat" /\ d.k = "str" /\ d.s = x.s
     [] T.k = "patternb" -> x.k = "pat" /\ d.k = "bytes" /\ d.s = x.s
     [] T.k \in {"list", "tuplevar", "deque"} ->
-         /\ d.k = "seq" /\ x.k = "seq"
-         /\ d.f = (IF T.k = "tuplevar" THEN "tuple" ELSE "list")
+         /\ d.k = "seq" /\ x.k = "seq"      \* (a list or a tuple: which of the two is written is not part of the contract)
          /\ Len(d.xs) = Len(x.xs)
          /\ \A i \in DOMAIN x.xs : SerOK(T.e, x.xs[i], d.xs[i])
     [] T.k \in {"set", "frozenset"} ->
-         /\ d.k = "seq" /\ x.k = "set" /\ d.f = "list"
+         /\ d.k = "seq" /\ x.k = "set"
          /\ Len(d.xs) = Cardinality(x.es)
          /\ \A e \in x.es : \E i \in DOMAIN d.xs : SerOK(T.e, e, d.xs[i])
          /\ \A i \in DOMAIN d.xs : \E e \in x.es : SerOK(T.e, e, d.xs[i])
     [] T.k = "tuple" ->
-         /\ d.k = "seq" /\ x.k = "seq" /\ d.f = "tuple"
+         /\ d.k = "seq" /\ x.k = "seq"
          /\ Len(d.xs) = Len(x.xs) /\ Len(x.xs) = Len(T.es)
          /\ \A i \in DOMAIN x.xs : SerOK(T.es[i], x.xs[i], d.xs[i])
     [] T.k \in DictKinds ->
@@ -533,6 +532,7 @@ OutEnabled(T) ==
     [] T.k = "tagged" -> \A i \in DOMAIN T.vars : OutEnabled(T.vars[i])
     [] T.k = "cls" ->
          /\ T.outf \in Range(T.inf)
+         /\ T.hook.k # "rejectifset"      \* (a hook that judges which fields were given explicitly: what is written gives all of them)
          /\ \A i \in DOMAIN T.fs :
               LET f == T.fs[i] IN
               /\ OutEnabled(f.t)
@@ -607,7 +607,7 @@ HasNaN(x) ==
 RECURSIVE StdVal(_)
 StdVal(x) ==
   CASE x.k = "seq"  -> x.f # "other" /\ \A i \in DOMAIN x.xs : StdVal(x.xs[i])
-    [] x.k = "map"  -> x.f # "proxy" /\ \A i \in DOMAIN x.ps : StdVal(x.ps[i][1]) /\ StdVal(x.ps[i][2]) /\ ~HasNaN(x.ps[i][1])
+    [] x.k = "map"  -> x.f \notin {"proxy", "ddlist"} /\ \A i \in DOMAIN x.ps : StdVal(x.ps[i][1]) /\ StdVal(x.ps[i][2]) /\ ~HasNaN(x.ps[i][1])
     [] x.k = "set"  -> \A y \in x.es : StdVal(y) /\ ~HasNaN(y)
     [] x.k = "sub"  -> StdVal(x.x)
     [] x.k = "vol"  -> StdVal(x.x)
